@@ -450,6 +450,43 @@ func init() {
 
 func c20RealProbes(c *chk.Ctx, info *prom.ConfigInfo, hashes map[string]uint64, sd map[string]*discovery.SDTargets) {
 	r := c.R
+	// the estimate is computed with the job's CURRENT metric relabel rules, also after reloads
+	{
+		cfgDrop := strings.Replace(c17Cfg("A"), "  static_configs:", "  metric_relabel_configs:\n  - {source_labels: [__name__], regex: \"m0\", action: drop}\n  static_configs:", 1)
+		infoDrop, err := pipe.LoadInfo(cfgDrop)
+		if err != nil {
+			chk.Fatalf("%v", err)
+		}
+		for _, order := range [][]*prom.ConfigInfo{{info, infoDrop}, {infoDrop, info}, {infoDrop}, {info, infoDrop, info}} {
+			sm := kscrape.New(true, h1Quiet())
+			net := &rig.Targets{}
+			net.Serve = func(req *http.Request) rig.Answer { return rig.Answer{Body: rig.Payload(12)} } // m0,m1,m2 x4
+			e := explore.New(sm, prometheus.NewRegistry(), h1Quiet())
+			for _, ci := range order {
+				_ = sm.ApplyConfig(ci)
+				_ = e.ApplyConfig(ci)
+				sm.GetJob("A").Cli = &http.Client{Transport: net}
+			}
+			last := order[len(order)-1]
+			e.UpdateTargets(map[string][]*discovery.SDTargets{"A": {sd["t1"]}})
+			err := e.VerifProbeOnce(hashes["t1"])
+			st := e.Get(hashes["t1"])
+			wantKept := int64(12)
+			if last == infoDrop {
+				wantKept = 8
+			}
+			r.States++
+			r.Transitions++
+			if err != nil || st == nil || st.Series != wantKept || st.TotalSeries != 12 {
+				se, to := int64(-1), int64(-1)
+				if st != nil {
+					se, to = st.Series, st.TotalSeries
+				}
+				r.Violate("C20:real-probe:estimate-with-stale-config", "estimate-from-success", fmt.Sprintf("after %d configuration load(s) the probe of a 12-sample target gives kept/total %d/%d, the current rules keep %d (err=%v)", len(order), se, to, wantKept, err), int64(len(order)),
+					&c20Replay{Property: "C20", Clause: "estimate-from-success", Detail: fmt.Sprintf("%d loads, last drops m0: %v", len(order), last == infoDrop)})
+			}
+		}
+	}
 	body := rig.Payload(12)
 	for _, gzipOn := range []bool{false, true} {
 		wire := body
